@@ -58,6 +58,9 @@ META = dict(
         "undirected graphs"],
 )
 
+META["rule"] += (
+    " " + 'Added later: a dozen further array-taking static helpers, constructors and setters in the argument ledger (coordinate conversions, rectangular grids, Legendre coordinates, recurrence thresholds, ClimateNetwork / ResNetwork / Data / ClimateData constructors, node weights, edge lists, symmetrize_by_absmax).')
+
 CULPRITS = {
     "Surrogates": [
         ("white_noise_surrogates", lambda o: o.white_noise_surrogates()),
